@@ -2,7 +2,7 @@
    Model: Model/BodyQueries.v (symbolsForBody, nestedSymbolsForExpr, symbolExprKind, workspace query),
    compared with SymbolsInFile on every run. *)
 From Coq Require Import String List ZArith Bool Sorted Permutation.
-From HV Require Import Base.Pos Base.SortSpec Model.Schema Model.Ast Model.BodyQueries Proofs.BodyQueriesProofs Proofs.SymbolNesting.
+From HV Require Import Base.Pos Base.SortSpec Model.Schema Model.Ast Model.BodyQueries Proofs.BodyQueriesProofs Proofs.SymbolNesting Base.Str Proofs.WorkspaceSymbols.
 
 (* the symbols of a body correspond one-to-one to the attributes and blocks written in it ... *)
 Theorem C14_symbols_one_to_one : forall bs b, Permutation (body_items bs b) (symbols_body bs b).
@@ -41,3 +41,11 @@ Theorem C14_children_inside_parents : forall b bs outer,
   Forall (fun s => match outer with Some o => inside (sym_rng s) o | None => True end /\ all_inside s) (symbols_body bs b).
 Proof. exact symbols_nest. Qed.
 Print Assumptions C14_children_inside_parents.
+
+(* a workspace query returns exactly the top-level symbols of the files of the readable paths whose name contains the
+   query (all of them for the empty query): nothing else, nothing missing *)
+Theorem C14_workspace_query_exact : forall q paths s,
+  In s (workspace_symbols q paths) <->
+  exists fs f, In (true, fs) paths /\ In f fs /\ In s (snd f) /\ (String.eqb q "" || contains_str q (sym_name s)) = true.
+Proof. exact workspace_symbols_exact. Qed.
+Print Assumptions C14_workspace_query_exact.
